@@ -147,7 +147,41 @@ R(z) :- Q(x, y), z = {p: x, q: y.f};
 S(k) Max= v :- R(z), k = z.p, v in z.q;
 Out(z, n) :- R(z), n = Size(z.q), S(z.p);
 ''', 'Out', 'typed')
+  add('udf_preamble', '''@Engine("bigquery");
+@CompileAsUdf(Triple);
+Triple(x) = 3 * x;
+@CompileAsUdf(Shifted);
+Shifted(x) = x + 7;
+@CompileAsUdf(Halved);
+Halved(x) = x / 2;
+@CompileAsUdf(Squared);
+Squared(x) = x * x;
+@CompileAsUdf(Nested);
+Nested(x) = Triple(Shifted(x));
+T(x) :- x in [1, 2, 3];
+Out(a: Triple(x), b: Shifted(x), c: Halved(x), d: Squared(x), e: Nested(x)) :- T(x);
+''', 'Out', 'udf-preamble')
   return P
+
+
+UDF_WORDS = ['Alpha', 'Bravo', 'Coral', 'Delta', 'Ember', 'Fjord', 'Gamma', 'Helix', 'Ionic', 'Jolly', 'Kappa', 'Lumen']
+
+
+def gen_udf_program(r, k):
+  """A generated BigQuery program whose preamble holds several CREATE TEMP FUNCTION definitions."""
+  names = r.sample(UDF_WORDS, r.randint(3, 7))
+  lines = ['@Engine("bigquery");']
+  for i, n in enumerate(names):
+    lines.append('@CompileAsUdf(%s);' % n)
+    if i and r.random() < 0.3:
+      lines.append('%s(x) = %s(x) + %d;' % (n, r.choice(names[:i]), i))
+    else:
+      lines.append('%s(x) = x %s %d;' % (n, r.choice('+-*'), r.randint(2, 9)))
+  lines.append('T(x) :- x in [1, 2, 3];')
+  used = r.sample(names, r.randint(2, len(names)))
+  lines.append('Mid(%s) :- T(x);' % ', '.join('f%d: %s(x)' % (i, n) for i, n in enumerate(used[:len(used) // 2 + 1])))
+  lines.append('Out(%s) :- T(x), Mid(f0: y);' % ', '.join(['y'] + ['%s(x)' % n for n in used]))
+  return dict(id='udf%d' % k, text='\n'.join(lines) + '\n', pred='Out', family='generated:udf-preamble')
 
 
 def gen_program(r, k):
@@ -239,6 +273,8 @@ def all_programs(tier, r, top):
   P.append(import_program(top))
   for k in range(2 if tier == 'quick' else 40):
     P.append(gen_program(r, k))
+  for k in range(2 if tier == 'quick' else 12):
+    P.append(gen_udf_program(r, k))
   P += corpus_programs(tier, r)
   return P, inc
 
